@@ -115,11 +115,16 @@ pub fn format_comments(comments: &ChildTrivia, loc: CommentLocation, out: &mut P
 				while lines.last().is_some_and(String::is_empty) {
 					lines.pop();
 				}
-				if lines.len() == 1 && !doc {
-					if matches!(loc, CommentLocation::ItemInline) {
-						p!(out, sp);
+				if matches!(loc, CommentLocation::ItemInline) {
+					p!(out, sp);
+				}
+				// A comment without text is a comment still: `/* */`
+				if lines.is_empty() || lines.len() == 1 && !doc {
+					p!(out, str(if doc { "/**" } else { "/*" }));
+					if let Some(line) = lines.first() {
+						p!(out, str(" ") string(line.trim().to_string()));
 					}
-					p!(out, str("/* ") string(lines[0].trim().to_string()) str(" */"));
+					p!(out, str(" */"));
 					if matches!(
 						loc,
 						CommentLocation::AboveItem | CommentLocation::EndOfItems
@@ -129,10 +134,7 @@ pub fn format_comments(comments: &ChildTrivia, loc: CommentLocation, out: &mut P
 					if matches!(loc, CommentLocation::BeforeInline) {
 						p!(out, sp);
 					}
-				} else if !lines.is_empty() {
-					if matches!(loc, CommentLocation::ItemInline) {
-						p!(out, sp);
-					}
+				} else {
 					p!(out, str("/*"));
 					if doc {
 						p!(out, str("*"));
